@@ -197,6 +197,9 @@ pub enum SyncStyle {
 	ConfirmTxFirstSkipping,
 	ConfirmBestFirstUnconfirmOnly,
 	ConfirmTxFirstUnconfirmOnly,
+	/// reorgs reported through transaction_unconfirmed only (ancestors first), new blocks reported in
+	/// batches: their transactions, then the best block of the last one only
+	ConfirmUnconfirmOnlySkipping,
 }
 
 impl SyncStyle {
@@ -213,6 +216,7 @@ impl SyncStyle {
 			SyncStyle::ConfirmTxFirstSkipping,
 			SyncStyle::ConfirmBestFirstUnconfirmOnly,
 			SyncStyle::ConfirmTxFirstUnconfirmOnly,
+			SyncStyle::ConfirmUnconfirmOnlySkipping,
 		]
 	}
 	pub fn batches(&self) -> bool {
@@ -636,7 +640,7 @@ impl World {
 						lightning::chain::Listen::blocks_disconnected(&*node.cm, loc);
 					}
 				},
-				SyncStyle::ConfirmBestFirstUnconfirmOnly | SyncStyle::ConfirmTxFirstUnconfirmOnly => {
+				SyncStyle::ConfirmBestFirstUnconfirmOnly | SyncStyle::ConfirmTxFirstUnconfirmOnly | SyncStyle::ConfirmUnconfirmOnlySkipping => {
 					// only transaction_unconfirmed for what was in the disconnected blocks; the new best block
 					// follows with the connections below
 					for h in gone.iter() {
@@ -750,7 +754,7 @@ impl World {
 					node.cm.transactions_confirmed(&b.header, &all, height);
 					node.cm.best_block_updated(&b.header, height);
 				},
-				SyncStyle::ConfirmTxFirstSkipping | SyncStyle::ConfirmBestFirstSkipping => {
+				SyncStyle::ConfirmTxFirstSkipping | SyncStyle::ConfirmBestFirstSkipping | SyncStyle::ConfirmUnconfirmOnlySkipping => {
 					// intermediate blocks: only their transactions; the best block is reported for the last one only
 					if style == SyncStyle::ConfirmBestFirstSkipping && last {
 						node.mon.best_block_updated(&b.header, height);
@@ -760,7 +764,7 @@ impl World {
 						node.mon.transactions_confirmed(&b.header, &all, height);
 						node.cm.transactions_confirmed(&b.header, &all, height);
 					}
-					if style == SyncStyle::ConfirmTxFirstSkipping && last {
+					if (style == SyncStyle::ConfirmTxFirstSkipping || style == SyncStyle::ConfirmUnconfirmOnlySkipping) && last {
 						node.mon.best_block_updated(&b.header, height);
 						node.cm.best_block_updated(&b.header, height);
 					}
